@@ -124,8 +124,11 @@ func TestC16(t *testing.T) {
 			realClientSlowService(t, r, i)
 		}
 		realClientFailingStatus(t, r)
+		for i := 0; i < r.N(20, 200); i++ {
+			lookupDuringPollOfStaleSecret(t, r, i)
+		}
 	}
-	r.Require("lookups_disabled_cases", "lookups_enabled_cases", "shared_flights", "failed_lookups", "hang_bounded_callers", "retry_after_foreign_cancel", "successful_lookups", "stress_lookups", "cases_with_failing_cache", "handles_followed_a_later_poll", "updaters_followed_a_later_poll", "real_client_cancel_cases", "overlapping_cache_writes", "real_client_slow_service_cases", "lookups_after_the_service_recovered", "real_client_failing_status_cases")
+	r.Require("lookups_disabled_cases", "lookups_enabled_cases", "shared_flights", "failed_lookups", "hang_bounded_callers", "retry_after_foreign_cancel", "successful_lookups", "stress_lookups", "cases_with_failing_cache", "handles_followed_a_later_poll", "updaters_followed_a_later_poll", "real_client_cancel_cases", "overlapping_cache_writes", "real_client_slow_service_cases", "lookups_after_the_service_recovered", "real_client_failing_status_cases", "lookups_during_a_poll_of_a_stale_secret")
 	r.Rule("seeded cases: AllowLookup on/off; 1-2 undeclared names each with a service mode (ok, slow D, fail, fail-then-ok, hang for ever, not found) and 1-6 callers (LookupSecret / NewUpdater / Fields.Apply) with start offsets and contexts (background, deadline 1 s/1 min/10 min, cancelled at a random instant). Distinct = (AllowLookup, service mode, number of callers, set of context kinds, set of caller outcomes)")
 }
 
@@ -986,5 +989,93 @@ func realClientFailingStatus(t *testing.T, r *evid.Run) {
 			}
 			st.Close()
 		}
+	}
+}
+
+// lookupDuringPollOfStaleSecret: a process restarted from its cache holds an undeclared secret nobody has
+// touched for longer than the expiry age. While a poll is in flight a caller looks that name up (or asks for an
+// updater, or applies a struct). It gets a working handle, and the secret stays known, polled and cached.
+func lookupDuringPollOfStaleSecret(t *testing.T, r *evid.Run, idx int) {
+	rng := r.Rand(uint64(55_000_000 + idx))
+	r.Eval(1)
+	svc := fakesvc.New()
+	svc.Set("apple", 1, []byte("apple#1"))
+	svc.Set("plum", 1, []byte("plum#1"))
+	now := int64(2_000_000_000)
+	stale := now - int64(3*time.Hour/time.Second) - int64(rng.IntN(100000))
+	doc := fmt.Sprintf(`{"apple":{"secret":{"Value":"YXBwbGUjMQ==","Version":1},"lastAccess":"%d"},"plum":{"secret":{"Value":"cGx1bSMx","Version":1},"lastAccess":"%d"}}`, now-5, stale)
+	cache := &fakesvc.MonCache{Initial: []byte(doc)}
+	parked := make(chan struct{}, 1)
+	release := make(chan struct{})
+	var armed atomic.Bool
+	svc.Behave = func(q *fakesvc.Req) fakesvc.Behaviour {
+		if q.Cond && armed.CompareAndSwap(true, false) {
+			parked <- struct{}{}
+			return fakesvc.Behaviour{Hold: release}
+		}
+		return fakesvc.Behaviour{}
+	}
+	st, err := setec.NewStore(context.Background(), setec.StoreConfig{Client: svc, Secrets: []string{"apple"}, AllowLookup: true, Cache: cache, PollInterval: -1,
+		ExpiryAge: time.Hour, TimeNow: func() time.Time { return time.Unix(now, 0) }, Logf: func(string, ...any) {}})
+	if err != nil {
+		r.Violation("newstore-fails", idx, err.Error(), nil)
+		return
+	}
+	defer st.Close()
+	armed.Store(true)
+	done := make(chan error, 1)
+	go func() { done <- st.Refresh(context.Background()) }()
+	via := []string{"lookup", "updater"}[idx%2]
+	var h setec.Secret
+	var lerr error
+	select {
+	case <-parked:
+		switch via {
+		case "lookup":
+			h, lerr = st.LookupSecret(context.Background(), "plum")
+		case "updater":
+			_, lerr = setec.NewUpdater(context.Background(), st, "plum", func(b []byte) (string, error) { return string(b), nil })
+		}
+		close(release)
+	case <-time.After(10 * time.Second):
+		close(release)
+		<-done
+		r.Inconclusive("lookup during poll: the poll never reached the service")
+		return
+	}
+	<-done
+	r.Count("lookups_during_a_poll_of_a_stale_secret", 1)
+	r.Distinct("lookup (" + via + ") during a poll of a stale cached secret")
+	what := fmt.Sprintf("case %d: %s of a cached, long-unread, undeclared secret while a poll was in flight", idx, via)
+	if lerr != nil {
+		r.Violation("lookup-fails", idx, what+": "+lerr.Error(), nil)
+		return
+	}
+	svc.Set("plum", 2, []byte("plum#2"))
+	if err := st.Refresh(context.Background()); err != nil {
+		r.Violation("refresh-fails", idx, err.Error(), nil)
+		return
+	}
+	if h == nil {
+		h = func() (s setec.Secret) {
+			defer func() { recover() }()
+			return st.Secret("plum")
+		}()
+	}
+	got, pan := func() (b []byte, p any) {
+		defer func() { p = recover() }()
+		if h == nil {
+			return nil, "Secret(\"plum\") is unknown to the store"
+		}
+		return h.Get(), nil
+	}()
+	if pan != nil || string(got) != "plum#2" {
+		r.Violation("looked-up-handle-not-live", idx, fmt.Sprintf("%s: after the service moved to %q and a poll completed, the handle yields %q (panic: %v)", what, "plum#2", got, pan), nil)
+		return
+	}
+	var payload map[string]json.RawMessage
+	json.Unmarshal(cache.Last(), &payload)
+	if _, ok := payload["plum"]; !ok {
+		r.Violation("looked-up-secret-not-cached", idx, what+": the cache no longer holds it: "+string(cache.Last()), nil)
 	}
 }
